@@ -12,6 +12,14 @@
 #include <tins/ip_reassembler.h>
 using namespace Tins;
 
+#include <sanitizer/lsan_interface.h>
+#include <memory>
+// --own 1 (C12, spec/pdu/Holders + HolderTrace): the same schedules, but what is logged is what the user's packet looks like
+// before and after each process() call, whether its parent links are sound, and - after the reassembler and every packet are
+// gone - whether anything was leaked
+static void view(vh::W& w, const char* key, PDU* top) { w.key(key).A(); for (PDU* q = top; q; q = q->inner_pdu()) w.A().v((long)q->pdu_type()).v((long)q->header_size()).E(); w.E(); }
+static bool links_ok(PDU* top) { if (top->parent_pdu()) return false; for (PDU* q = top; q->inner_pdu(); q = q->inner_pdu()) if (q->inner_pdu()->parent_pdu() != q) return false; return true; }
+static const char* stname(IPv4Reassembler::PacketStatus st) { return st == IPv4Reassembler::NOT_FRAGMENTED ? "NOT_FRAGMENTED" : (st == IPv4Reassembler::FRAGMENTED ? "FRAGMENTED" : "REASSEMBLED"); }
 struct Dgram { std::string src, dst; uint16_t id; int proto; std::vector<uint8_t> payload; long n; long U; };
 
 static Dgram make_dgram(int d, long n, long scale, const std::string& mode, vh::Rng& rng, bool partial_last, long trim) {
@@ -42,8 +50,9 @@ static void scenario(const vh::Json& sc, vh::Out& out, vh::Rng& rng, const vh::A
     bool partial = rng.coin();
     long trim = sc.has("trim") ? sc["trim"].num() : -1;      // exact size of datagram 1: n*unit - trim octets
     Dgram g[3]; g[1] = make_dgram(1, sc["n"][0].num(), scale, mode, rng, partial, trim); g[2] = make_dgram(2, sc["n"][1].num(), scale, mode, rng, partial, -1);
-    out.begin("\"mode\":\"" + mode + "\",\"scale\":" + std::to_string(scale) + ",\"units\":[" + std::to_string(g[1].n) + "," + std::to_string(g[2].n) + "]");
-    IPv4Reassembler reasm;
+    const bool own = args.num("own", 0) != 0;
+    out.begin(std::string(own ? "\"ip\":" + std::to_string((long)PDU::IP) + ",\"raw\":" + std::to_string((long)PDU::RAW) + "," : "") + "\"mode\":\"" + mode + "\",\"scale\":" + std::to_string(scale) + ",\"units\":[" + std::to_string(g[1].n) + "," + std::to_string(g[2].n) + "]");
+    std::unique_ptr<IPv4Reassembler> reasm_p(new IPv4Reassembler()); IPv4Reassembler& reasm = *reasm_p;
     const vh::Json& pk = sc["pkts"];
     for (size_t i = 0; i < pk.size(); ++i) {
         int d = (int)pk[i]["d"].num();
@@ -53,7 +62,9 @@ static void scenario(const vh::Json& sc, vh::Out& out, vh::Rng& rng, const vh::A
             if (rng.coin()) ip.flags(IP::DONT_FRAGMENT);
             std::vector<uint8_t> b = ip.serialize(); IP parsed(&b[0], (uint32_t)b.size());
             std::vector<uint8_t> before = parsed.serialize();
+            vh::W ow; if (own) { ow.O().kv("e", "feed").kv("holder", "reasm"); view(ow, "before", &parsed); }
             IPv4Reassembler::PacketStatus st = reasm.process(parsed);
+            if (own) { view(ow, "after", &parsed); ow.kv("status", stname(st)).kv("links_ok", links_ok(&parsed)).E(); out.event(ow); continue; }
             std::vector<uint8_t> after = parsed.serialize();
             vh::W w; w.O().kv("e", "plain").kv("status", st == IPv4Reassembler::NOT_FRAGMENTED ? "NOT_FRAGMENTED" : (st == IPv4Reassembler::FRAGMENTED ? "FRAGMENTED" : "REASSEMBLED")).kv("untouched", before == after && before == b).E();
             out.event(w); continue;
@@ -71,7 +82,9 @@ static void scenario(const vh::Json& sc, vh::Out& out, vh::Rng& rng, const vh::A
         PDU* top;
         if (eth) { EthernetII e = EthernetII() / fr; std::vector<uint8_t> eb = e.serialize(); ep = EthernetII(&eb[0], (uint32_t)eb.size()); top = &ep; }
         else { ipp = IP(&b[0], (uint32_t)b.size()); top = &ipp; }
+        vh::W ow; if (own) { ow.O().kv("e", "feed").kv("holder", "reasm"); view(ow, "before", top); }
         IPv4Reassembler::PacketStatus st = reasm.process(*top);
+        if (own) { view(ow, "after", top); ow.kv("status", stname(st)).kv("links_ok", links_ok(top)).E(); out.event(ow); continue; }
         vh::W w; w.O().kv("e", "frag").kv("d", d).kv("off", off).kv("len", len).kv("mf", mf)
             .kv("status", st == IPv4Reassembler::NOT_FRAGMENTED ? "NOT_FRAGMENTED" : (st == IPv4Reassembler::FRAGMENTED ? "FRAGMENTED" : "REASSEMBLED"));
         if (st == IPv4Reassembler::REASSEMBLED) {
@@ -97,6 +110,7 @@ static void scenario(const vh::Json& sc, vh::Out& out, vh::Rng& rng, const vh::A
         }
         w.E(); out.event(w);
     }
+    if (own) { reasm_p.reset(); int leaks = __lsan_do_recoverable_leak_check(); vh::W w; w.O().kv("e", "end").kv("leaks", leaks).E(); out.event(w); }
     out.end();
 }
 int main(int argc, char** argv) { return vh::run(argc, argv, scenario); }
